@@ -33,7 +33,7 @@ def coder_common(ctx):
     fqs = ctx.closure(SW + 'encode', SW + 'decode')
     live.r_live(ctx, fqs, floor=4, what='liveness predicates in encode/decode')
     live.r_alpha(ctx, fqs, floor=2)
-    walk.r_walk(ctx, [SW + 'encode', SW + 'decode'], {SW + 'encode': 2, SW + 'decode': 3})
+    walk.r_walk(ctx, [SW + 'encode', SW + 'decode'], {SW + 'encode': 2, SW + 'decode': 2})
     walk.r_deg(ctx, ['encode', 'decode'])
     walk.r_sel(ctx)
     walk.r_endian(ctx)
@@ -61,7 +61,7 @@ def c06(ctx):
     fqs = ctx.closure(SW + 'decode')
     live.r_live(ctx, fqs, floor=2, what='liveness predicates in decode')
     live.r_alpha(ctx, fqs, floor=1)
-    walk.r_walk(ctx, [SW + 'decode'], {SW + 'decode': 3})
+    walk.r_walk(ctx, [SW + 'decode'], {SW + 'decode': 2})
     walk.r_deg(ctx, ['decode'])
     walk.r_vtuse(ctx)
     exc.r_exc(ctx, SW + 'decode', {'ValueError'}, floor=5)
@@ -146,7 +146,7 @@ def c08(ctx):
     purity.r_state_closure(ctx, SW + 'repair_dna')
     fqs = [SW + 'repair_dna', GR + 'path_matching']
     live.r_live(ctx, fqs, floor=5)
-    walk.r_walk(ctx, fqs, {SW + 'repair_dna': 1, GR + 'path_matching': 5})
+    walk.r_walk(ctx, fqs, {SW + 'repair_dna': 1, GR + 'path_matching': 2})
     repair.r_tile(ctx)
     repair.r_cand(ctx)
     repair.r_sites(ctx)
